@@ -244,6 +244,34 @@ pub fn main(args: &[String]) {
                 emit(&bx, Some(&format!("X {}", b.len())));
             }
         }
+        "numeric" => {
+            // every numeric position of generated responses, overwritten by numerals beyond the field's range.
+            // third column: `N <bits> <in_code>`
+            let over32: &[&str] = &["4294967296", "4294967297", "4294967300", "9999999999", "18446744073709551615", "18446744073709551616", "99999999999999999999999999999999999999999"];
+            let over64: &[&str] = &["18446744073709551616", "18446744073709551617", "18446744073709551620", "340282366920938463463374607431768211456", "99999999999999999999999999999999999999999"];
+            for _ in 0..n {
+                let v = genresp::gen_response(&mut rng);
+                let mut e = Enc::new(&mut rng, true);
+                genresp::enc_response(&mut e, &v);
+                let (enc, spans) = (e.out, e.num_spans);
+                if spans.is_empty() {
+                    continue;
+                }
+                for _ in 0..spans.len().min(3) {
+                    let (off, len, bits, in_code) = spans[rng.below(spans.len())];
+                    let numeral = if bits == 32 { *rng.pick(over32) } else { *rng.pick(over64) };
+                    let mut m = enc[..off].to_vec();
+                    if rng.chance(1, 4) {
+                        for _ in 0..1 + rng.below(30) {
+                            m.push(b'0');
+                        }
+                    }
+                    m.extend_from_slice(numeral.as_bytes());
+                    m.extend_from_slice(&enc[off + len..]);
+                    emit(&m, Some(&format!("N {} {} {}", bits, if in_code { 1 } else { 0 }, numeral)));
+                }
+            }
+        }
         "garbage" => {
             for _ in 0..n {
                 let g = garbage_line(&mut rng);
